@@ -60,7 +60,7 @@ static inline std::string proto_name(int na, int nd) { return S("p_%d_%d", na, n
 struct MirEmitter {
   std::string out; std::vector<std::string> pend; int lab = 0; const Json *fn = nullptr; std::string fname;
   std::vector<std::pair<std::string, std::vector<std::string>>> lrefs;  // table name -> labels
-  std::set<std::string> called, icalled; std::set<std::pair<int, int>> protos; bool uses_ext = false, uses_mem = false; std::set<int> extn_sizes;
+  std::set<std::string> called, icalled; std::set<std::pair<int, int>> protos; bool uses_ext = false, uses_mem = false; std::set<int> extn_sizes; std::set<std::string> data_used;
   const std::map<std::string, FuncInfo> *sigs = nullptr;
   int loop_depth = 0;
 
@@ -124,6 +124,7 @@ struct MirEmitter {
       icalled.insert(st[2].s);
       insn("mov t0, r_" + st[2].s); insn("mov t0, i64:(t0)"); emit_call("t0", opnd(st[1]), st[2].s, st[3]);
     } else if (k == "ext") { uses_ext = true; insn("call p_ext, ext, " + opnd(st[1]) + ", " + opnd(st[2]) + ", " + opnd(st[3])); }
+    else if (k == "ldata") { data_used.insert(st[2].s); insn("mov t0, " + st[2].s); insn("mov " + opnd(st[1]) + ", i64:(t0)"); }  // first i64 of a data item (own or imported)
     else if (k == "extn") {  // external with many integer arguments (first = count): long argument lists of the FFI / stack-passing paths
       int n = (int) st[2].num(); extn_sizes.insert(n);
       std::string s2 = S("call p_extn_%d, extn, ", n) + opnd(st[1]) + ", " + std::to_string(n);
@@ -182,7 +183,7 @@ struct MirEmitter {
   }
   // whole module; `all` maps every function name of the *program* to its signature
   std::string module(const Json &m, const std::map<std::string, FuncInfo> &all) {
-    sigs = &all; called.clear(); icalled.clear(); protos.clear(); lrefs.clear(); uses_ext = false; extn_sizes.clear();
+    sigs = &all; called.clear(); icalled.clear(); protos.clear(); lrefs.clear(); uses_ext = false; extn_sizes.clear(); data_used.clear();
     std::set<std::string> defined; for (auto &f : m.at("funcs").a) defined.insert(f.gets("name"));
     std::string funcs_txt; std::vector<std::pair<std::string, std::vector<std::string>>> all_lrefs;
     std::vector<std::string> ftxt;
@@ -191,6 +192,9 @@ struct MirEmitter {
     bool fwd_first = m.geti("fwd_first", 0) != 0;  // declaration order forward -> export -> definition
     if (fwd_first) for (auto &f : m.at("funcs").a) if (called.count(f.gets("name")) || icalled.count(f.gets("name"))) r += "\tforward " + f.gets("name") + "\n";
     for (auto &f : m.at("funcs").a) if (f.geti("exp", 1)) r += "\texport " + f.gets("name") + "\n";
+    std::set<std::string> own_data;
+    if (const Json *dj = m.find("data")) for (auto &d : dj->a) { own_data.insert(d.gets("name")); if (d.geti("exp", 1)) r += "\texport " + d.gets("name") + "\n"; }
+    for (auto &d : data_used) if (!own_data.count(d)) r += "\timport " + d + "\n";
     std::set<std::string> imports; for (auto &c : called) if (!defined.count(c)) imports.insert(c); for (auto &c : icalled) if (!defined.count(c)) imports.insert(c);
     if (uses_ext) imports.insert("ext");
     if (!extn_sizes.empty()) imports.insert("extn");
@@ -201,6 +205,7 @@ struct MirEmitter {
     if (uses_ext) r += "p_ext:\tproto i64, i64:t, i64:v\n";
     for (int n : extn_sizes) { r += S("p_extn_%d:\tproto i64, i64:n", n); for (int i = 1; i <= n; i++) r += S(", i64:a%d", i); r += "\n"; }
     for (auto &c : icalled) r += "r_" + c + ":\tref " + c + ", 0\n";
+    if (const Json *dj = m.find("data")) for (auto &d : dj->a) r += d.gets("name") + ":\ti64 " + std::to_string((long long) d.geti("val")) + "\n";
     for (auto &t : ftxt) r += t;
     r += "\tendmodule\n";
     return r;
@@ -328,7 +333,8 @@ struct Model {
         const Json *callee = resolve(fr.mod, k == "icall" ? st[2].s + "#i" : st[2].s); int64_t r = 0;  // "#i": indirect call through a ref data item
         if (callee) r = call(*callee, args); else { missing = st[2].s; overrun = true; }
         setv(st[1], fr, r);
-      } else if (k == "extn") {
+      } else if (k == "ldata") { const Json *d = resolve(fr.mod, st[2].s + "#d"); if (d) setv(st[1], fr, d->geti("val")); else { missing = st[2].s; overrun = true; } }
+      else if (k == "extn") {
         int64_t n = st[2].num(), v = val(st[3], fr); log.push_back({100 + n, v}); uint64_t r = (uint64_t) n;
         for (int64_t i = 1; i <= n; i++) r = r * 31 + (uint64_t) (i <= 3 ? v + i : i * 7);
         setv(st[1], fr, (int64_t) r);
